@@ -134,13 +134,18 @@ fn tcp_connection(r: &mut StdRng, server: &Arc<Server<Cat>>, addr: SocketAddr, p
     let mut sock = TcpStream::connect(addr).unwrap();
     sock.set_nodelay(true).unwrap();
     let mut sent = 0;
+    let mut write_failed = false;
     let mut segs = Vec::new();
     let pipelined = r.gen_bool(0.5);
     while sent < stream_out.len() {
         let cap = if pipelined { 70000 } else { *[1usize, 2, 3, 20, 4000].choose(r).unwrap() };
         let seg = r.gen_range(1..=(stream_out.len() - sent).min(cap));
         if sock.write_all(&stream_out[sent..sent + seg]).is_err() {
-            break; // the server closed the connection after a response-less request
+            // the server closed the connection (after a response-less request) while we were still sending: its kernel
+            // answers further segments with RST, and a close with unread input discards what was still in its send
+            // queue. The failed write consumes the socket error, so the reads below see a plain end of stream.
+            write_failed = true;
+            break;
         }
         segs.push(seg);
         sent += seg;
@@ -178,7 +183,7 @@ fn tcp_connection(r: &mut StdRng, server: &Arc<Server<Cat>>, addr: SocketAddr, p
             }
         }
     }
-    out.emit(json!({"ev": "Tcp", "reset": reset, "provider": provider, "reqs": reqs, "direct": expected, "segs": segs, "got": got, "closed": closed}));
+    out.emit(json!({"ev": "Tcp", "reset": reset || write_failed, "provider": provider, "reqs": reqs, "direct": expected, "segs": segs, "got": got, "closed": closed}));
 }
 
 fn udp_exchange(r: &mut StdRng, server: &Arc<Server<Cat>>, addr: SocketAddr, provider: &str, port: u16, payload: u16, out: &mut Out) {
